@@ -27,7 +27,9 @@ static fiber_multi_signal_t msig;
 static fiber_multi_channel_t* mc;
 static fiber_mutex_t mtx;
 static fiber_semaphore_t sem;
-static int g_about[MAXSTEPS], g_done[MAXSTEPS], g_all_done;
+static int g_about[MAXSTEPS], g_done[MAXSTEPS], g_all_done, g_ready[MAXSTEPS], lazy;
+GHOST static void set_ready(int k) { g_ready[k] = 1; }
+GHOST static int is_ready(int k) { return g_ready[k]; }
 
 GHOST static void about(int k) { g_about[k] = 1; }
 GHOST static int is_about(int k) { return g_about[k]; }
@@ -39,6 +41,7 @@ GHOST static int finished(void) { return g_all_done; }
 static void* walker(void* p) {
   for (int k = 0; k < nsteps; k++) {
     char b = 0;
+    while (!is_ready(k)) fiber_yield();
     about(k);
     switch (mech[k]) {
       case 0: {
@@ -84,13 +87,23 @@ int harness_main(void) {
   fmc_begin();
   // -Dfdonly=1 restricts the alphabet to the two descriptor waits (used by the C08 check)
   for (int k = 0; k < nsteps; k++) mech[k] = fmc_input(fmc_param("fdonly", 0) ? 2 : 8);
-  for (int k = 0; k < nsteps; k++)
-    if (mech[k] <= 1 && socketpair(AF_UNIX, SOCK_STREAM, 0, sv[k])) fmc_fail("seq harness: socketpair failed");
+  // -Dlazy=1: the socket pair of a step is created only when the previous step is over, so a
+  // descriptor closed in one step gives its NUMBER to the next one (what the library remembers
+  // per descriptor number must not leak from the old descriptor to the new one)
+  lazy = fmc_param("lazy", 0);
+  for (int k = 0; k < nsteps; k++) {
+    if (!lazy && mech[k] <= 1 && socketpair(AF_UNIX, SOCK_STREAM, 0, sv[k])) fmc_fail("seq harness: socketpair failed");
+    if (!lazy) set_ready(k);
+  }
   fiber_t* f = fiber_create(STK, walker, 0);
   // the main fiber never switches fibers while it waits (engine-level yield), so the walker is
   // stolen by the other kernel thread and every wake-up below comes from a different thread
   for (int k = 0; k < nsteps; k++) {
     if (mech[k] == 6) fiber_mutex_lock(&mtx);
+    if (lazy) {
+      if (mech[k] <= 1 && socketpair(AF_UNIX, SOCK_STREAM, 0, sv[k])) fmc_fail("seq harness: socketpair failed");
+      set_ready(k);
+    }
     while (!is_about(k)) fmc_yield();
     switch (mech[k]) {
       case 0: close(sv[k][0]); break;
